@@ -56,8 +56,10 @@ def compare(ctx, name, got_cat, events, cid, check_id=True):
             return
     if check_id:
         g = got_cat.catalog_id
-        if g is None or int(g) != cid or isinstance(g, bool):
-            ctx.violation(name + ":catalog_id", {"got": repr(g), "want": cid})
+        import numbers
+        if not isinstance(g, (numbers.Integral, numpy.integer)) or isinstance(g, bool) or int(g) != cid:
+            # "an integer catalog id survives every format": None, a float, a string, a pandas Series ... are not an integer id
+            ctx.violation(name + ":catalog_id", {"got": repr(g)[:200], "type": type(g).__name__, "want": cid})
 
 
 def check_case(ctx, case):
